@@ -225,6 +225,30 @@ int main(int argc, char **argv) {
           return {"ok", "", "", "", s.substr(0, 200)};
         }
         if (f.size() >= 2 && f[0] == "T") return text_case(f[1], true);
+        if (f.size() >= 2 && f[0] == "Q") {
+          // Q spec spec ...   a history of texts in one process: spec = prefix US n US middle US suffix ; outcome per text
+          vh::Fields out;
+          for (size_t i = 1; i < f.size(); ++i) {
+            std::vector<std::string> p;
+            size_t b = 0;
+            while (true) {
+              size_t e = f[i].find('\x1f', b);
+              if (e == std::string::npos) {
+                p.push_back(f[i].substr(b));
+                break;
+              }
+              p.push_back(f[i].substr(b, e - b));
+              b = e + 1;
+            }
+            if (p.size() != 4) {
+              out.push_back("bad-spec");
+              continue;
+            }
+            size_t n = static_cast<size_t>(std::stoull(p[1]));
+            out.push_back(text_case(repeat(p[0], n) + p[2] + repeat(p[3], n), false)[0]);
+          }
+          return out;
+        }
         if (f.size() >= 5 && f[0] == "N") {
           size_t n = static_cast<size_t>(std::stoull(f[2]));
           return text_case(repeat(f[1], n) + f[3] + repeat(f[4], n), n <= 2000);
